@@ -16,10 +16,10 @@ EXTENDS Naturals, Sequences
 PromptMs == 10000      \* "promptly": generous wall-clock bound (typical: < 200 ms)
 
 ExecFails == {"noent", "noentabs", "noexec", "enoexec", "dir", "emptyargs", "hugearg"}   \* request/program caused
-ExecRuns  == {"run", "runslow", "sleep", "term"}
+ExecRuns  == {"run", "runslow", "sleep", "term", "fdexec", "envrun"}
 
 Genuine(op, a) ==
-  CASE op.v \in {"run", "runslow"} ->
+  CASE op.v \in {"run", "runslow", "fdexec", "envrun"} ->      \* (the program exits 99/98 if it sees / misses VQMARK wrongly)
          /\ a.r = "verdict" /\ a.code = op.code
          /\ a.status = (IF op.code = 0 THEN 1 ELSE 7)
     [] op.v = "term"  -> a.r = "verdict" /\ a.status = 6 /\ a.code = 15
@@ -42,7 +42,7 @@ Allowed(op, a) ==
                               [] op.v = "mixed" -> a.r = "ok" /\ a.detail = ".E."
                               [] op.v = "longbatch" -> CallErr(a) \/ (a.r = "ok" /\ a.detail # "")   \* per-item errors or one error
                               [] OTHER          -> CallErr(a)          \* empty batch
-       [] op.k = "delete" -> IF op.v = "ok" THEN a.r = "ok" ELSE CallErr(a)
+       [] op.k = "delete" -> IF op.v = "ok" THEN a.r = "ok" ELSE CallErr(a)      \* bad, huge, emptypath
        [] op.k = "symlink" -> CASE op.v = "ok"  -> a.r = "ok" /\ a.detail = "."
                                 [] op.v = "bad" -> a.r = "ok" /\ a.detail = "E"
                                 [] OTHER        -> CallErr(a)
